@@ -1344,7 +1344,8 @@ def c18(ix: Index) -> None:
         ix.C['c18_expects'] += 1
         spec, bus = c['spec'], c['bus']
         r = rets.get(c['seq'])
-        D = c['vt'] + spec['timeout'] if spec.get('timeout') is not None else None
+        # (a zero or negative timeout expires at once: the deadline is the instant of the call)
+        D = c['vt'] + max(0.0, spec['timeout']) if spec.get('timeout') is not None else None
         end_vt = r['vt'] if r is not None else float('inf')
         end_seq = r['seq'] if r is not None else ix.quiet_seq
         # candidates: processed on that bus, processing begun after the call (handler set is fixed at process begin)
